@@ -29,3 +29,119 @@ Theorem wind_script_minimal : forall h here target, wf_heap h -> here < length h
     (forall p, In p common -> ~ In (WOut p) (wind_script h here target) /\ ~ In (WIn p) (wind_script h here target)).
 Proof. exact wind_script_minimal_lemma. Qed.
 Print Assumptions wind_script_minimal.
+
+(** ------------------------------------------------------------------------------------------------ the machine *)
+From ChibiV Require Import C06.Machine C06.MachineProofs C06.MachineThms.
+
+(** the machine built on the regenerated travel-to-point! IS the machine built on the SPEC wind script (the oracle
+    of the trace correspondence with chibi), for every script and every number of steps *)
+Theorem machine_impl_eq_spec : forall n e, run_impl n (init e) = run_spec n (init e).
+Proof. exact machine_impl_eq_spec_lemma. Qed.
+Print Assumptions machine_impl_eq_spec.
+
+(** wind order: invoking a continuation in any reachable state runs exactly the R7RS script between the dynamic-wind
+    frames of the current continuation and those of the target continuation; afterwards (%dk) and the parameters
+    are the target's *)
+Theorem machine_wind_order : forall s idx v kk pt, reachable s -> nth_error (conts s) idx = Some (kk, pt) ->
+  let po := run_wevs (hp s) (frames_script (kont s) kk) (params s) (out s) in
+  do_throw travel_to_point s idx v =
+    mkS (CRet v) kk (kont_point kk) (fst po) (hp s) (conts s) (slots s) (counts s) (snd po) (st s)
+  /\ fst po = point_params (hp s) (kont_point kk).
+Proof. exact machine_wind_order_lemma. Qed.
+Print Assumptions machine_wind_order.
+
+Theorem dk_is_continuation_extent : forall s, reachable s ->
+  dk s = kont_point (kont s) /\ chainp (hp s) (dk s) = kont_winds (kont s).
+Proof. exact dk_is_continuation_extent_lemma. Qed.
+Print Assumptions dk_is_continuation_extent.
+
+Theorem param_value_is_extent_value : forall s p, reachable s ->
+  lookup_param p (params s) = lookup_param p (point_params (hp s) (kont_point (kont s))).
+Proof. exact param_value_is_extent_value_lemma. Qed.
+Print Assumptions param_value_is_extent_value.
+
+Theorem parameterize_binds : forall s p n body k, reachable s -> st s = Running ->
+  ctl s = CRet (VNat n) -> kont s = FParamVal p body :: k ->
+  let s' := step_impl s in
+  ctl s' = CEval body /\ params s' = BParam p n :: params s /\
+  point_params (hp s') (kont_point (kont s')) = BParam p n :: params s /\
+  kont s' = FWindExit (length (hp s)) (dk s) [ASetParams (params s)] :: k.
+Proof. exact parameterize_binds_lemma. Qed.
+Print Assumptions parameterize_binds.
+
+Theorem handler_runs_in_outer_handler_context : forall travel s k c v tag e orig,
+  lookup_handler (params s) = Some (HC (HUser tag e) orig) ->
+  let s' := do_raise travel s k c v in
+  ctl s' = CEval e /\ lookup_handler (params s') = orig /\
+  (forall p, lookup_param p (params s') = lookup_param p (params s)) /\
+  kont s' = FHandlerDone c :: FWindExit (length (hp s)) (dk s) [ASetParams (params s)] :: k /\
+  out s' = (6, v) :: (5, tag) :: out s.
+Proof. exact handler_runs_in_outer_handler_context_lemma. Qed.
+Print Assumptions handler_runs_in_outer_handler_context.
+
+Theorem handler_installed_with_current : forall s tag h body, st s = Running -> ctl s = CEval (WithHandler tag h body) ->
+  lookup_handler (params (step_impl s)) = Some (HC (HUser tag h) (lookup_handler (params s))).
+Proof. exact handler_installed_with_current_lemma. Qed.
+Print Assumptions handler_installed_with_current.
+
+Theorem raise_continuable_returns_to_raise_point : forall travel s k v tag e orig s2 r,
+  lookup_handler (params s) = Some (HC (HUser tag e) orig) ->
+  let s1 := do_raise travel s k true v in
+  st s2 = Running -> ctl s2 = CRet r -> kont s2 = kont s1 ->
+  let s4 := step travel (step travel s2) in
+  ctl s4 = CRet r /\ kont s4 = k /\ dk s4 = dk s /\ params s4 = params s /\ out s4 = out s2.
+Proof. exact raise_continuable_returns_to_raise_point_lemma. Qed.
+Print Assumptions raise_continuable_returns_to_raise_point.
+
+Theorem raise_handler_return_is_secondary_error : forall travel s2 k r,
+  st s2 = Running -> ctl s2 = CRet r -> kont s2 = FHandlerDone false :: k ->
+  step travel s2 = do_raise travel s2 k false ERRV.
+Proof. exact raise_handler_return_is_secondary_error_lemma. Qed.
+Print Assumptions raise_handler_return_is_secondary_error.
+
+(** ------------------------------------------------------------------------------------------------ the VM stack *)
+From ChibiV Require Import C06.StackModel C06.StackProofs.
+
+(** CALLCC then (after anything) RESUMECC: registers and stack contents are the captured ones, the value passed to
+    the continuation sits where call/cc's result is expected; premise: the stack need not be grown *)
+Theorem callcc_resume_restores : forall m kobj m1 saved m2,
+  1 <= StackModel.top m -> StackModel.top m + 4 <= length (stack m) ->
+  callcc m kobj = (m1, saved) ->
+  StackModel.top m + 4 + 64 < length (stack m2) ->
+  exists m3, resumecc m2 saved = Some m3 /\
+    StackModel.top m3 = StackModel.top m /\ fp m3 = fp m /\ self m3 = self m /\ ip m3 = ip m /\
+    length (stack m3) = length (stack m2) /\
+    (forall i, i < StackModel.top m - 1 -> sref (stack m3) i = sref (stack m) i) /\
+    sref (stack m3) (StackModel.top m - 1) = sref (stack m2) (fp m2 - 1) /\
+    (forall i, StackModel.top m + 4 <= i -> sref (stack m3) i = sref (stack m2) i).
+Proof. exact callcc_resume_restores_lemma. Qed.
+Print Assumptions callcc_resume_restores.
+
+(** REFUTED (known findings c-callback-escape:...): a procedure called back from C through a nested sexp_apply is NOT
+    transparent for escapes — the positive statement [forall n e, run_script_impl n e = run_script_impl n (erase_ccall e)]
+    fails; see MachineThms.v for the witness and notes/C06.md for the behaviour of the real binary *)
+Theorem c_callback_transparent_refuted : ~ (forall n e, run_script_impl n e = run_script_impl n (erase_ccall e)).
+Proof. exact c_callback_transparent_refuted_lemma. Qed.
+Print Assumptions c_callback_transparent_refuted.
+
+(** guard: a raise that finds a guard's handler delivers the clause thunk to guard-k in the dynamic environment of the
+    guard expression, and records handler-k (inside the handler call at the raise point) for the re-raise *)
+Theorem guard_handler_escapes_to_guard_context : forall s0 c v k gk only tag e orig kk pt,
+  reachable s0 -> st s0 = Running -> ctl s0 = CRet (VNat v) -> kont s0 = FRaise c :: k ->
+  lookup_handler (params s0) = Some (HC (HGuard gk only tag e) orig) ->
+  nth_error (conts s0) gk = Some (kk, pt) ->
+  let s' := step_impl s0 in
+  ctl s' = CRet (VClauseThunk only tag e v (length (conts s0))) /\ kont s' = kk /\ dk s' = kont_point kk /\
+  params s' = point_params (hp s') (kont_point kk) /\
+  nth_error (conts s') (length (conts s0)) =
+    Some (FCallThunk :: FHandlerDone c :: FWindExit (length (hp s0)) (dk s0) [ASetParams (params s0)] :: k, length (hp s0)).
+Proof. exact guard_handler_escapes_to_guard_context_lemma. Qed.
+Print Assumptions guard_handler_escapes_to_guard_context.
+
+Theorem guard_installs : forall s only tag h body, st s = Running -> ctl s = CEval (Guard only tag h body) ->
+  let s' := step_impl s in
+  nth_error (conts s') (length (conts s)) = Some (FCallThunk :: kont s, dk s) /\
+  lookup_handler (params s') = Some (HC (HGuard (length (conts s)) only tag h) (lookup_handler (params s))) /\
+  ctl s' = CEval body.
+Proof. exact guard_installs_lemma. Qed.
+Print Assumptions guard_installs.
